@@ -115,6 +115,8 @@ type Pod struct {
 	GpuMem int      `json:"gpuMem"`
 	Devs   int      `json:"devs"`
 	Sub    int      `json:"sub"`   // 1-based index into the job's Subs (0 = default pod set)
+	InitCpu int     `json:"initCpu"` // cpu request of an init container (0 = none); effective cpu = max(cpu, initCpu) + ovhCpu
+	OvhCpu  int     `json:"ovhCpu"`  // pod overhead cpu (RuntimeClass)
 	Phase  string   `json:"phase"` // P | R
 	Node   int      `json:"node"`
 	Term   int      `json:"term"`
@@ -410,6 +412,13 @@ func BuildPod(sc *Scenario, i int, gen int, now time.Time) *v1.Pod {
 			NodeSelector:  map[string]string{},
 		},
 		Status: v1.PodStatus{Phase: v1.PodPending},
+	}
+	if p.InitCpu > 0 {
+		ireq := v1.ResourceList{v1.ResourceCPU: qty(p.InitCpu, "m")}
+		pod.Spec.InitContainers = []v1.Container{{Name: "init", Image: "x", Resources: v1.ResourceRequirements{Requests: ireq, Limits: ireq.DeepCopy()}}}
+	}
+	if p.OvhCpu > 0 {
+		pod.Spec.Overhead = v1.ResourceList{v1.ResourceCPU: qty(p.OvhCpu, "m")}
 	}
 	for k, v := range p.Sel {
 		pod.Spec.NodeSelector[k] = v
